@@ -150,6 +150,13 @@ Theorem C02_alarm_is_a_nonempty_clobbered_set : forall k g i m, In (i, m) (alarm
   m = clobbered g (solve k g (repeat 0%N (length g))) i /\ m <> 0%N.
 Proof. exact alarms_spec. Qed.
 
+(* the same analysis from the function's entry: a register it reports is not a parameter and is
+   read on some path before anything wrote it *)
+Theorem C02_entry_read_has_a_path : forall k arity ws r,
+  N.testbit (entry_reads k arity ws) r = true ->
+  (arity <= r)%N /\ reach (graph_of ws) r 0%nat.
+Proof. exact entry_read_has_witness. Qed.
+
 (* KF-C02-11 as bytecode: LoadI r1, 10; CallGlobal r0, 0, 0 (+ 2 cache words); AddII r2, r0, r1;
    Return r2 - register 1 is read after the call into r0 returns; and the repaired allocation *)
 Example C02_call_liveness_nonvacuous :
